@@ -1320,6 +1320,18 @@ func (rg *Range) callSuccessFacts(c *ssa.Call) []Lin {
 			out = append(out, nl)
 		}
 	}
+	// a request decoder that accepted b holds a value whose encoding is no longer
+	// than b (the layout agreement of C04: the decoder's fixed-width reads are
+	// the encoder's fields): len(x.Marshal()) <= len(b)
+	if c.Call.IsInvoke() && c.Call.Method.Name() == "Unmarshal" && len(args) == 1 && strings.HasSuffix(c.Call.Value.Type().String(), "tokens.TokenRequestWithDetails") {
+		mt := &Term{Op: "call", Name: "(tokens.TokenRequestWithDetails).Marshal", Args: []*Term{rg.s.Of(c.Call.Value)}}
+		name := "len(" + mt.String() + ")"
+		if _, ok := rg.atoms[name]; !ok {
+			rg.atoms[name] = c
+			rg.axiom(linAtom(name))
+		}
+		out = append(out, rg.lenOf(args[0]).minus(linAtom(name)))
+	}
 	// in-module callee: facts common to all its success returns
 	if f := c.Call.StaticCallee(); f != nil && InModule(f) && f.Blocks != nil {
 		out = append(out, rg.calleeSuccess(f, c)...)
